@@ -283,30 +283,49 @@ Definition al_sort (c : cmpsel) (a : alist) : ares :=
                0 [] [mkawr 0 (alen a)]
        end.
 
-(* binary search by halving the list: compares the key with the middle element *)
-Fixpoint bsearch_list (c : cmpsel) (fuel : nat) (l : list elt) (k : elt) : bool :=
+(* Binary search.  The comparator has the contract of bsearch(3): it is TWO-SORTED,
+   [cmp : K -> elt -> comparison]; its first argument is always the key, its second always an
+   array member, and the key need not have the shape of a member (a bare int searched among
+   records, say).  Halves the list, comparing the key with the middle member; returns the
+   member found. *)
+Fixpoint bsearch_list {K : Type} (cmp : K -> elt -> comparison) (fuel : nat) (l : list elt) (k : K)
+  : option elt :=
   match fuel with
-  | O => false
+  | O => None
   | S f =>
       let m := zlen l / 2 in
       match zskipn m l with
-      | [] => false
+      | [] => None
       | x :: r =>
-          match compare_by c k x with
-          | Eq => true
-          | Lt => bsearch_list c f (zfirstn m l) k
-          | Gt => bsearch_list c f r k
+          match cmp k x with
+          | Eq => Some x
+          | Lt => bsearch_list cmp f (zfirstn m l) k
+          | Gt => bsearch_list cmp f r k
           end
       end
   end.
 
-(* array_list_bsearch: found? *)
-Definition al_bsearch (c : cmpsel) (a : alist) (k : elt) : option bool :=
+(* array_list_bsearch(&key, arr, cmp): None = undefined behaviour, Some None = NULL (not found),
+   Some (Some x) = a pointer to a slot holding x *)
+Definition al_bsearch_km {K : Type} (cmp : K -> elt -> comparison) (a : alist) (k : K)
+  : option (option elt) :=
   if alen a >? asize a then None
   else match cell_vals (zfirstn (alen a) (slots a)) with
        | None => None
-       | Some vs => Some (bsearch_list c (S (length vs)) vs k)
+       | Some vs => Some (bsearch_list cmp (S (length vs)) vs k)
        end.
+
+(* a key that is not a member: a bare id, compared with the value of a member *)
+Definition key := Z.
+Definition cmp_km (c : cmpsel) (k : key) (x : elt) : comparison := compare_by c (Some k) x.
+
+(* the homogeneous use: the key has the shape of a member (possibly NULL); found? *)
+Definition al_bsearch (c : cmpsel) (a : alist) (k : elt) : option bool :=
+  match al_bsearch_km (compare_by c) a k with
+  | None => None
+  | Some (Some _) => Some true
+  | Some None => Some false
+  end.
 
 (* An element's value changed in place by the client, e.g.
    json_object_set_int64(json_object_array_get_idx(arr, i), v): the array is not called at all
